@@ -268,6 +268,16 @@ def run(tier, seed):
         for params in ((1, 1, 0, 0), (1, 1, gi[0], 0), (gb[0], gp[0], gi[1], 0)):
             jobs.append((rc3, vin, params))
 
+    # thresholds exactly equal to an input probability (dyadic settings, so the probabilities are exact): "below the
+    # threshold" keeps the equal ones
+    dyadic = [(0.5, 1, 1, 0.25), (0.5, 1, 1, 0.5), (0.25, 1, 1, 0.25), (0.25, 1, 1, 0.75), (0.25, 1, 1, 0.1875),
+              (0.5, 1, 0, 0.25), (0.5, 1, 0.5, 0.125), (0.75, 1, 1, 0.5625), (0.5, 0.75, 1, 0.25), (0.5, 0.75, 1, 0.125)]
+    for rc in circuits(env):
+        hp = sum(op[1] for op in rc["ops"] if op[0] == "her")
+        for vin in rc["inputs"]:
+            if 1 <= sum(vin) + hp <= 2:
+                jobs += [(rc, vin, params) for params in dyadic]
+
     def shard_fn(js):
         acc = kernel.Acc()
         cache = {}
